@@ -12,6 +12,7 @@ import collections
 import io
 import math
 import random
+import re
 import struct
 import warnings
 
@@ -162,6 +163,7 @@ class Prog:
                 tys = ", ".join(t for _, t, _ in its)
                 self.emit(ind, f"{heads} = scf.for {iv} = {lb} to {ub} step {st} iter_args({ia}) -> ({tys}) {{")
                 e2 = list(env) + [(iv, "index")] + [(a, t) for a, t, _ in its]
+                body_start = len(self.lines)
                 self.body(e2, ind + "  ", depth + 1, rng.choice([1, 2, 4]))
                 ys = []
                 outer = {v_ for v_, _ in env}
@@ -181,6 +183,17 @@ class Prog:
                     # induction variable, another carried value or an outer value)
                     if y in others or y in outer or y in ys or y in self.casts:
                         self.uses.add("scf.for:yield-operand-shared")
+                    if y != own:
+                        # the value yielded to a position is defined BEFORE the last use of that position's block
+                        # argument (both are put into one register although both are live in between): the other
+                        # precondition of the same known allocator defect (C19: tied values simultaneously live)
+                        body_lines = self.lines[body_start:]
+                        tok = re.compile(r"(?<![\w%])" + re.escape(own) + r"(?!\w)")
+                        d = next((i for i, ln in enumerate(body_lines) if ln.strip().startswith(y + " =") or
+                                  ln.strip().startswith(y + ",") or re.search(r"^\s*(%\w+, )*" + re.escape(y) + r"(, %\w+)* = ", ln)), None)
+                        last = max((i for i, ln in enumerate(body_lines) if tok.search(ln)), default=-1)
+                        if d is not None and d < last:
+                            self.uses.add("scf.for:yield-operand-defined-before-last-use-of-its-block-argument")
                     ys.append(y)
                 self.emit(ind + "  ", f"scf.yield {', '.join(ys)} : {tys}")
                 self.emit(ind, "}")
@@ -382,6 +395,10 @@ def run_part1(job, res):
                 # carried value into another carried position, and the allocator puts block argument, init,
                 # yield operand and result of each position into ONE register (two live values share it)
                 key = "known-structural:riscv_scf.for-yield-operand-shared"
+            elif key == "wrong-result" and "scf.for:yield-operand-defined-before-last-use-of-its-block-argument" in prog.uses:
+                # same defect, other precondition: the yielded value is defined before the last use of the block
+                # argument whose register it is given
+                key = "known-structural:riscv_scf.for-yield-operand-defined-before-last-use-of-its-block-argument"
             elif key == "wrong-result":
                 cands = [(kk, rep, ()) for kk, rep in repair_known(asm, prog).items()]
                 if any(u.startswith(("minimumf", "maximumf")) for u in prog.uses):
